@@ -1,4 +1,5 @@
 import BobModel.Model.Download
+import BobModel.Model.DigestDriver
 import BobModel.Util.Proto
 open Lean Proto Download
 
@@ -19,6 +20,8 @@ requests:
  LOC  = {"res":RH|null,"inp":INP|null,"dir":s|null,"vidv":s|null,"disk":s|null,"audit":s|null}
  RH   = {"hash":s} | {"forged":n} ;  INP = {"built":[bid,[RH|null..]]} | {"downloaded":bid} | {"shared":[bid,loc]} | "legacy"
  ART  = null | "broken" | {"good":c,"audit":s|null}
+ {"op":"bid","script":s|null,"tools":[{"name","prov":hex,"path","libs":[..],"weak":b}],"env":[[k,v]..],"args":[hex..],
+        "host":hex,"platform":hex}   -> {"ok":hex,..}   the Build-Id bytes of Model/Digest.lean with SHA-1 (handler of drv_c03)
  the environment: H c = "H(c)", semB rs s cs = "B(rs|s|c1,c2,)", semP rs c = "P(rs|c)", junk = "junk",
  B rs s bs = the entry of "bids" for (rs, s, bs) or "bid(rs|s|b1,b2,)"
 -/
@@ -210,6 +213,7 @@ def handle (j : Json) : Json :=
       ("arch", Json.mkObj (bidsSeen.eraseDups.map fun b => (b, artJson (r.arch b)))),
       ("fixed", Json.arr ((ps.filter r.mem.fixed).map Json.str).toArray),
       ("wasRun", Json.arr ((ps.filter fun p => (r.mem.wasRun p).isSome).map Json.str).toArray)]
+  | "bid" => DigestDriver.handle j
   | _ => err "bad-op"
 
 def main : IO Unit := runPure handle
